@@ -414,6 +414,15 @@ Fixpoint wrap_disc_calls (ds : dspace) (outs : list (option operand)) (rs : list
       end
   end.
 
+(* the method combinations the discretized element refuses (before calling NumPy) *)
+Definition disc_reject (m : meth) (keepdims all_elems : bool) : option errk :=
+  match m with
+  | MReduce => if keepdims then Some EValue else None
+  | MReduceat => Some EValue
+  | MOuter => if negb all_elems then Some EType else None
+  | _ => None
+  end.
+
 Definition disc_ufunc (NP : npsem) (st : store) (ds : dspace) (nout : nat) (m : meth)
            (ins : list operand) (kw : kwargs) (outs : list (option operand))
   : res (list operand * store) :=
@@ -437,10 +446,9 @@ Definition disc_ufunc (NP : npsem) (st : store) (ds : dspace) (nout : nat) (m : 
           end
       end
   | _ =>
-      if (match m with MReduce => kw_keepdims kw | _ => false end) then Err EValue
-      else if (match m with MReduceat => true | _ => false end) then Err EValue
-      else if (match m with MOuter => negb (forallb is_disc ins) | _ => false end) then Err EType
-      else
+      match disc_reject m (kw_keepdims kw) (forallb is_disc ins) with
+      | Some e => Err e
+      | None =>
       let out_t := match outs_t with [o] => o | _ => None end in
       let out_orig := match outs with [o] => o | _ => None end in
       match tens_ufunc NP st (ds_ts ds) nout m ins_t kw' (if is_at m then [] else [out_t]) with
@@ -496,6 +504,7 @@ Definition disc_ufunc (NP : npsem) (st : store) (ds : dspace) (nout : nat) (m : 
               end
           | _ => Err EUnmodelled
           end
+      end
       end
   end.
 
